@@ -34,6 +34,7 @@ type World struct {
 	scratch     string
 	coverMu     sync.Mutex
 	coverDone   map[string]bool
+	dropped     []string // harness files that do not compile against this tree
 }
 
 // harnessFile describes one overlay file: real path and the /repo-relative
@@ -143,14 +144,43 @@ func loadWorld(repo, verifRoot string, hfiles []harnessFile, extraPkgs []string)
 		return nil, err
 	}
 	nerr := 0
+	badHarness := map[string]bool{}
 	packages.Visit(pkgs, nil, func(p *packages.Package) {
 		for _, e := range p.Errors {
 			if nerr < 20 {
 				fmt.Fprintf(os.Stderr, "load error: %s: %v\n", p.PkgPath, e)
 			}
 			nerr++
+			for virt := range w.overlayReal {
+				if strings.HasPrefix(e.Pos, virt+":") && strings.Contains(virt, "zz_verif_") {
+					badHarness[virt] = true
+				}
+			}
 		}
 	})
+	if nerr > 0 && len(badHarness) > 0 && len(badHarness) < len(hfiles) {
+		// Some harness files do not compile against this tree (they look at
+		// internals that a change renamed or retyped). Drop them and decide the
+		// property with the remaining harnesses; the dropped files are reported
+		// as inconclusive by the caller.
+		var keep []harnessFile
+		var dropped []string
+		for _, hf := range hfiles {
+			virt := filepath.Join(repo, hf.pkg, "zz_verif_"+filepath.Base(hf.real))
+			if badHarness[virt] {
+				dropped = append(dropped, filepath.Base(hf.real))
+			} else {
+				keep = append(keep, hf)
+			}
+		}
+		os.RemoveAll(scratch)
+		w2, err := loadWorld(repo, verifRoot, keep, extraPkgs)
+		if err != nil {
+			return nil, err
+		}
+		w2.dropped = append(w2.dropped, dropped...)
+		return w2, nil
+	}
 	if nerr > 0 {
 		return nil, fmt.Errorf("%d package load errors", nerr)
 	}
